@@ -138,7 +138,8 @@ def build_c(job, res):
     so = os.path.join(d, "verif_json.so")
     cmd = [job.get("cc", "gcc"), job.get("opt", "-O1"), "-std=c99", "-shared", "-fPIC", "-w",
            "-I", os.path.join(REPO, "lib/c"), "-I", d, "-o", so,
-           os.path.join(d, "verif_harness.c"), os.path.join(REPO, "lib/c/bitproto.c")] + cfiles
+           os.path.join(d, "verif_harness.c"),
+           job.get("rt_obj") or os.path.join(REPO, "lib/c/bitproto.c")] + cfiles
     p = subprocess.run(cmd, capture_output=True, text=True, timeout=120)
     if p.returncode != 0:
         raise RuntimeError("cc failed: " + p.stderr[-1500:])
